@@ -411,6 +411,7 @@ func run(r *core.Run) int {
 	for _, c := range forced {
 		execCase(r, c)
 	}
+	r.Set("caller_owned_bundles_found_modified", len(sims.ModifiedBundles()))
 	return r.Finish(r.Pick(1500, 30000),
 		core.Require{Counter: "valid-chain-results", Why: "no result slice was judged"},
 		core.Require{Counter: "invalid-after-valid", Why: "no broken chain followed its valid original"},
